@@ -397,6 +397,7 @@ def run(run, model):
     run.do(meta.provenance_rule, model, "C04.post-prov", "__postconditions__", "postconditions")
     run.do(meta.snapshot_provenance, model, "C04.snap-prov")
     run.do(base_loop_table, model)
+    run.do(meta.per_member_state, model)
     run.do(weaken_table, model)
     run.do(invariant_provenance, model, "C04.inv-prov", "C04.inv-own")
     run.do(structure_rules, model)
